@@ -8,6 +8,14 @@ real object and the "pass" operation (reactor iteration / Clock.advance).
 
 All times are multiples of 1/8 (dyadic), so float arithmetic is exact and the
 model's scheduled times can be compared with ``==``.
+
+Scripted call behaviour "fails": with a per-run probability (knob ``raise_p``,
+0 in a third of the runs) a timed call ends by raising ScriptedFailure after it
+has done its in-call operations - an application bug in a timed callable.  What
+the failure means for the pass is for the subclass to say (a reactor logs it and
+carries on with the iteration; task.Clock lets it reach the caller of advance()).
+The knob is drawn when the first call of the run finishes, not with the rest of
+the configuration, so that the earlier draws of a run keep their tape positions.
 """
 from twisted.internet import error
 
@@ -15,6 +23,10 @@ from detsim.sim import Violation, StepLimit
 from models.timers import TimerModel
 
 EIGHTH = 0.125
+
+
+class ScriptedFailure(Exception):
+    """Raised on purpose by a timed call whose scripted behaviour is "fails"."""
 
 
 def freeze_heap():
@@ -33,6 +45,7 @@ def freeze_heap():
 class TimerScenario:
     mode = None          # "reactor" | "clock"
     STEP_CAP = 4000
+    RAISE_CHOICES = (0.0, 0.1, 0.3)   # per-run probability that a timed call ends by raising
 
     def __init__(self, sim):
         self.sim = sim
@@ -45,7 +58,8 @@ class TimerScenario:
         self.inner_p = 0.0
         self.dead_p = 0.15
         self.max_calls = 60
-        self.counts = {"inner": 0, "cancel": 0, "resched": 0, "ran": 0, "dead_ops": 0, "passes_with_runs": 0}
+        self.raise_p = None  # drawn from RAISE_CHOICES when the first call finishes
+        self.counts = {"inner": 0, "cancel": 0, "resched": 0, "ran": 0, "dead_ops": 0, "passes_with_runs": 0, "raised": 0}
 
     # ---- supplied by subclasses
     def impl_call_later(self, delay, fn, cid):
@@ -107,7 +121,7 @@ class TimerScenario:
     def fire(self, cid):
         try:
             self._fire(cid)
-        except (Violation, StepLimit):
+        except (Violation, StepLimit, ScriptedFailure):
             raise
         except BaseException as e:  # harness bug inside a call: do not let the reactor hide it
             if self.harness_exc is None:
@@ -121,16 +135,32 @@ class TimerScenario:
         self.counts["ran"] += 1
         self.chk(m.ran(cid), "in-call")
         self.check_views("in-call")
-        if self.draining or not self.inner_p:
+        if not self.draining and self.inner_p:
+            n = 0
+            while n < 3 and sim.draw_bool(self.inner_p, "inner-op"):
+                n += 1
+                self.counts["inner"] += 1
+                sim.probe("op_inside_running_call")
+                self.do_op(self.choose_basic_op(), "in-call")
+            if n:
+                self.check_views("in-call")
+        self.maybe_fail(cid)
+
+    def maybe_fail(self, cid):
+        """Scripted behaviour "fails": the call that is running ends by raising."""
+        sim, m = self.sim, self.m
+        if self.raise_p is None:
+            self.raise_p = sim.draw_choice(self.RAISE_CHOICES, "raise-p")
+            if isinstance(sim.config, dict):
+                sim.config["raise_p"] = self.raise_p
+        if not self.raise_p or not sim.draw_bool(self.raise_p, "raises"):
             return
-        n = 0
-        while n < 3 and sim.draw_bool(self.inner_p, "inner-op"):
-            n += 1
-            self.counts["inner"] += 1
-            sim.probe("op_inside_running_call")
-            self.do_op(self.choose_basic_op(), "in-call")
-        if n:
-            self.check_views("in-call")
+        self.counts["raised"] += 1
+        sim.fault("timed_call_raised")
+        if any(m.time_of(c) <= m.now for c in m.pending_ids()):
+            sim.probe("call_raised_while_others_due")
+        sim.event("raises", cid)
+        raise ScriptedFailure("scripted failure of timed call %d" % cid)
 
     # ---- operations
     def op_call_later(self, where, delay=None):
